@@ -2121,6 +2121,7 @@ func main() {
 	}
 	b.WriteString("]\n\n")
 	writeEntryTables(&b, eps, pts, pb, props, ibc)
+	writeAppTies(&b, extractAppTies())
 	b.WriteString("end Comdex.Gen.Guards\n")
 	if *out == "" {
 		fmt.Print(b.String())
